@@ -16,8 +16,7 @@ fn is_bnode(v: &str) -> bool {
     v.starts_with("_:")
 }
 
-/// `scheme:` prefix as in RFC 3986 — what distinguishes an IRI from a literal in the bare
-/// lexical value model.
+/// `scheme:` prefix as in RFC 3986: the lexical form of an ABSOLUTE IRI.
 pub fn is_iri_like(v: &str) -> bool {
     match v.split_once(':') {
         None => false,
@@ -28,14 +27,32 @@ pub fn is_iri_like(v: &str) -> bool {
     }
 }
 
+/// The RELATIVE IRIs of the update universe: legal IRIREFs (`<k>`) whose lexical form carries no
+/// scheme. No request of the universe has a BASE, so they are kept as written. The bare lexical
+/// value model cannot tell them from a literal by their look, so the reference knows them by
+/// name; the lexical spaces of IRIs and literals are disjoint by construction (no literal of the
+/// universe is spelled like one of these, see `ugen::lexical_spaces_disjoint`).
+pub const RELATIVE_IRIS: [&str; 1] = ["k"];
+
+pub fn is_relative_iri(v: &str) -> bool {
+    RELATIVE_IRIS.contains(&v)
+}
+
+/// term kind of a lexical value: IRI (absolute, or one of the relative IRIs of the universe)
+pub fn is_iri(v: &str) -> bool {
+    is_iri_like(v) || is_relative_iri(v)
+}
+
+// Legality of an instantiated template term depends on the KIND of the bound term only (RDF:
+// subject = IRI or blank node, predicate = IRI, graph name = IRI), never on the store.
 fn legal_subject(v: &str) -> bool {
-    is_bnode(v) || is_iri_like(v)
+    is_bnode(v) || is_iri(v)
 }
 fn legal_predicate(v: &str) -> bool {
-    !is_bnode(v) && is_iri_like(v)
+    !is_bnode(v) && is_iri(v)
 }
 fn legal_graph(v: &str) -> bool {
-    !is_bnode(v) && is_iri_like(v)
+    !is_bnode(v) && is_iri(v)
 }
 
 fn remove_quad(ds: &mut Dataset, q: &Quad4) -> bool {
@@ -61,8 +78,34 @@ struct BnodeAlloc {
     next: usize,
 }
 
-fn instantiate(templates: &[QuadT], sols: &[Mu], alloc: &mut BnodeAlloc, insert: bool) -> Result<BTreeSet<Quad4>, String> {
-    let mut out = BTreeSet::new();
+/// template position whose legality depends on the kind of the term put there
+#[derive(Clone, Copy, Debug, PartialEq, Eq, PartialOrd, Ord, Hash)]
+pub enum Pos {
+    Subject,
+    Predicate,
+    Graph,
+}
+
+impl Pos {
+    pub fn name(&self) -> &'static str {
+        match self {
+            Pos::Subject => "subject",
+            Pos::Predicate => "predicate",
+            Pos::Graph => "graph",
+        }
+    }
+}
+
+/// one quad produced by (solution, template quad), with the subject / predicate / graph positions
+/// that were filled through a VARIABLE and the value put there
+#[derive(Clone, Debug)]
+struct Derivation {
+    quad: Quad4,
+    via_var: Vec<(Pos, String)>,
+}
+
+fn instantiate(templates: &[QuadT], sols: &[Mu], alloc: &mut BnodeAlloc, insert: bool) -> Result<Vec<Derivation>, String> {
+    let mut out = Vec::new();
     for mu in sols {
         let mut local: BTreeMap<String, String> = BTreeMap::new();
         for qt in templates {
@@ -89,22 +132,32 @@ fn instantiate(templates: &[QuadT], sols: &[Mu], alloc: &mut BnodeAlloc, insert:
             let (Some(s), Some(p), Some(o)) = (term(&qt.t.s)?, term(&qt.t.p)?, term(&qt.t.o)?) else {
                 continue; // unbound variable: this quad is skipped for this solution
             };
+            let mut via_var = Vec::new();
             // illegal triples are skipped (SPARQL Update §3.1.3)
-            if qt.t.s.is_var() && !legal_subject(&s) {
-                continue;
+            if qt.t.s.is_var() {
+                if !legal_subject(&s) {
+                    continue;
+                }
+                via_var.push((Pos::Subject, s.clone()));
             }
-            if qt.t.p.is_var() && !legal_predicate(&p) {
-                continue;
+            if qt.t.p.is_var() {
+                if !legal_predicate(&p) {
+                    continue;
+                }
+                via_var.push((Pos::Predicate, p.clone()));
             }
             let g = match &qt.g {
                 None => String::new(),
                 Some(T::Var(n)) => match mu.get(n) {
-                    Some(v) if legal_graph(v) => v.clone(),
+                    Some(v) if legal_graph(v) => {
+                        via_var.push((Pos::Graph, v.clone()));
+                        v.clone()
+                    }
                     _ => continue,
                 },
                 Some(other) => other.lexical(),
             };
-            out.insert((s, p, o, g));
+            out.push(Derivation { quad: (s, p, o, g), via_var });
         }
     }
     Ok(out)
@@ -117,37 +170,44 @@ fn has_bnode(quads: &[QuadT]) -> bool {
     quads.iter().any(|q| matches!(q.t.s, T::Bnode(_)) || matches!(q.t.o, T::Bnode(_)))
 }
 
-/// Apply one update request. `Err` = the request must be rejected and the dataset stay as is.
-pub fn apply(ds: &Dataset, u: &Update, bnode_seed: usize) -> Result<(Dataset, Effect), String> {
+/// deletions and insertions of one request, every derivation kept
+struct Plan {
+    dels: Vec<Derivation>,
+    ins: Vec<Derivation>,
+}
+
+/// `Err` = the request must be rejected.
+fn plan(ds: &Dataset, u: &Update, bnode_seed: usize) -> Result<Plan, String> {
     let mut alloc = BnodeAlloc { next: bnode_seed * 1000 };
-    let (dels, ins): (BTreeSet<Quad4>, BTreeSet<Quad4>) = match u {
+    Ok(match u {
         Update::InsertData(q) => {
             if has_var(q) {
                 return Err("variable in INSERT DATA".into());
             }
-            (BTreeSet::new(), instantiate(q, &[Mu::new()], &mut alloc, true)?)
+            Plan { dels: Vec::new(), ins: instantiate(q, &[Mu::new()], &mut alloc, true)? }
         }
         Update::DeleteData(q) => {
             if has_var(q) || has_bnode(q) {
                 return Err("variable or blank node in DELETE DATA".into());
             }
-            (instantiate(q, &[Mu::new()], &mut alloc, false)?, BTreeSet::new())
+            Plan { dels: instantiate(q, &[Mu::new()], &mut alloc, false)?, ins: Vec::new() }
         }
         Update::Modify { delete, insert, pattern } => {
             if delete.as_ref().map_or(false, |d| has_bnode(d)) {
                 return Err("blank node in DELETE template".into());
             }
+            // the WHERE pattern is evaluated once, on the pre-operation dataset
             let view = View::of(ds, &[], &[]);
             let sols = eval_group(pattern, &view, None)?;
-            let d = match delete {
+            let dels = match delete {
                 Some(d) => instantiate(d, &sols, &mut alloc, false)?,
-                None => BTreeSet::new(),
+                None => Vec::new(),
             };
-            let i = match insert {
+            let ins = match insert {
                 Some(i) => instantiate(i, &sols, &mut alloc, true)?,
-                None => BTreeSet::new(),
+                None => Vec::new(),
             };
-            (d, i)
+            Plan { dels, ins }
         }
         Update::DeleteWhere(q) => {
             if has_bnode(q) {
@@ -172,9 +232,17 @@ pub fn apply(ds: &Dataset, u: &Update, bnode_seed: usize) -> Result<(Dataset, Ef
             }
             let view = View::of(ds, &[], &[]);
             let sols = eval_group(&Group(elems), &view, None)?;
-            (instantiate(q, &sols, &mut alloc, false)?, BTreeSet::new())
+            Plan { dels: instantiate(q, &sols, &mut alloc, false)?, ins: Vec::new() }
         }
-    };
+    })
+}
+
+/// Apply one update request. `Err` = the request must be rejected and the dataset stay as is.
+pub fn apply(ds: &Dataset, u: &Update, bnode_seed: usize) -> Result<(Dataset, Effect), String> {
+    let pl = plan(ds, u, bnode_seed)?;
+    // sets: all deletions are applied before all insertions
+    let dels: BTreeSet<Quad4> = pl.dels.into_iter().map(|d| d.quad).collect();
+    let ins: BTreeSet<Quad4> = pl.ins.into_iter().map(|d| d.quad).collect();
     let mut out = ds.clone();
     let mut eff = Effect::default();
     for q in &dels {
@@ -188,6 +256,83 @@ pub fn apply(ds: &Dataset, u: &Update, bnode_seed: usize) -> Result<(Dataset, Ef
         }
     }
     Ok((out, eff))
+}
+
+// ---------------------------------------------------------------------------------------
+// structural facts about a transition: relative IRIs put into subject / predicate / graph
+// position through a template variable (vacuity counters and failure tags of C03)
+// ---------------------------------------------------------------------------------------
+
+/// A template variable bound to a relative IRI, instantiated in subject / predicate / graph
+/// position of a template quad (one entry per distinct (template kind, position, IRI)).
+#[derive(Clone, Debug, PartialEq, Eq, PartialOrd, Ord)]
+pub struct RelBinding {
+    /// INSERT template (false = DELETE template / DELETE WHERE block)
+    pub insert: bool,
+    pub pos: Pos,
+    pub iri: String,
+    /// the IRI occurs in that position in some quad of the pre-operation dataset (graph position:
+    /// it names a graph of the pre-operation dataset, possibly an empty one)
+    pub present: bool,
+    /// the IRI names a graph of the pre-operation dataset (possibly an empty one)
+    pub names_graph: bool,
+    /// it occurs there in the pre-operation dataset (graph position: the graph holds a quad) and
+    /// no longer once the deletions of this same operation are applied
+    pub last_occurrence_deleted: bool,
+}
+
+#[derive(Clone, Debug, Default)]
+pub struct RelReport {
+    pub bindings: Vec<RelBinding>,
+    /// quads this operation adds to the dataset ALL of whose derivations put, through a variable, a
+    /// relative IRI into a position where the pre-operation dataset does not have it (and which
+    /// does not name a pre-operation graph either)
+    pub inserts_only_via_unseen: BTreeSet<Quad4>,
+}
+
+fn occurs(ds: &Dataset, pos: Pos, iri: &str) -> bool {
+    match pos {
+        Pos::Subject => ds.default.iter().chain(ds.named.values().flatten()).any(|t| t.0 == iri),
+        Pos::Predicate => ds.default.iter().chain(ds.named.values().flatten()).any(|t| t.1 == iri),
+        Pos::Graph => ds.named.get(iri).map_or(false, |g| !g.is_empty()),
+    }
+}
+
+/// `None` = the request is rejected by the reference.
+pub fn relative_iri_bindings(ds: &Dataset, u: &Update) -> Option<RelReport> {
+    let pl = plan(ds, u, 1).ok()?;
+    let mut after_dels = ds.clone();
+    for d in &pl.dels {
+        remove_quad(&mut after_dels, &d.quad);
+    }
+    let fact = |insert: bool, pos: Pos, iri: &str| -> RelBinding {
+        let names_graph = ds.named.contains_key(iri);
+        let present = if pos == Pos::Graph { names_graph } else { occurs(ds, pos, iri) };
+        RelBinding { insert, pos, iri: iri.to_string(), present, names_graph, last_occurrence_deleted: occurs(ds, pos, iri) && !occurs(&after_dels, pos, iri) }
+    };
+    let mut set: BTreeSet<RelBinding> = BTreeSet::new();
+    for (insert, ders) in [(false, &pl.dels), (true, &pl.ins)] {
+        for d in ders {
+            for (pos, v) in &d.via_var {
+                if is_relative_iri(v) {
+                    set.insert(fact(insert, *pos, v));
+                }
+            }
+        }
+    }
+    // quads added to the dataset whose every derivation goes through an unseen relative IRI
+    let unseen = |d: &Derivation| d.via_var.iter().any(|(pos, v)| is_relative_iri(v) && { let f = fact(true, *pos, v); !f.present && !f.names_graph });
+    let mut only: BTreeSet<Quad4> = pl.ins.iter().filter(|d| unseen(d)).map(|d| d.quad.clone()).collect();
+    for d in &pl.ins {
+        if !unseen(d) {
+            only.remove(&d.quad);
+        }
+    }
+    if !only.is_empty() {
+        let kept = after_dels.quads();
+        only.retain(|q| !kept.contains(q));
+    }
+    Some(RelReport { bindings: set.into_iter().collect(), inserts_only_via_unseen: only })
 }
 
 pub fn selftest() -> Vec<String> {
@@ -333,6 +478,75 @@ pub fn selftest() -> Vec<String> {
             }
         }
         Err(e) => errs.push(format!("update selftest graph-variable DELETE WHERE rejected: {}", e)),
+    }
+    // relative IRIs of the universe are IRIs: a variable bound to one is a legal subject, predicate and
+    // graph name whatever the store holds; the literal "x" in the same places is skipped
+    let k = RELATIVE_IRIS[0];
+    if is_iri_like(k) || !is_iri(k) || is_iri("x") || is_iri("1") {
+        errs.push("update selftest: term kinds of the relative IRI / literals".into());
+    }
+    let mut ds5 = Dataset::default();
+    ds5.default.insert(("x:a".into(), "x:p".into(), k.into()));
+    ds5.default.insert(("x:b".into(), "x:p".into(), "x".into()));
+    let mv = Update::Modify {
+        delete: None,
+        insert: Some(vec![q(v("o"), i("x:p"), v("s")), q(v("s"), v("o"), v("s")), QuadT { g: Some(v("o")), t: tp(v("s"), i("x:p"), v("s")) }]),
+        pattern: Group(vec![Elem::Triples(vec![tp(v("s"), i("x:p"), v("o"))])]),
+    };
+    match apply(&ds5, &mv, 1) {
+        Ok((d2, eff)) => {
+            let want_named: BTreeSet<_> = [("x:a".to_string(), "x:p".to_string(), "x:a".to_string())].into_iter().collect();
+            if eff != (Effect { inserted: 3, deleted: 0 })
+                || !d2.default.contains(&(k.to_string(), "x:p".to_string(), "x:a".to_string()))
+                || !d2.default.contains(&("x:a".to_string(), k.to_string(), "x:a".to_string()))
+                || d2.default.len() != 4
+                || d2.named.len() != 1
+                || d2.named.get(k) != Some(&want_named)
+            {
+                errs.push(format!("update selftest relative IRI moved to subject/predicate/graph: {:?} {:?}", d2, eff));
+            }
+        }
+        Err(e) => errs.push(format!("update selftest relative IRI rejected: {}", e)),
+    }
+    match relative_iri_bindings(&ds5, &mv) {
+        Some(r) => {
+            let pos: Vec<Pos> = r.bindings.iter().map(|b| b.pos).collect();
+            if pos != vec![Pos::Subject, Pos::Predicate, Pos::Graph] || r.bindings.iter().any(|b| !b.insert || b.present || b.names_graph || b.last_occurrence_deleted || b.iri != k) || r.inserts_only_via_unseen.len() != 3 {
+                errs.push(format!("update selftest relative IRI report (absent): {:?}", r));
+            }
+        }
+        None => errs.push("update selftest relative IRI report: rejected".into()),
+    }
+    // rewrite: the only quad holding k as subject is deleted and a quad with the same variable as subject
+    // inserted - legal because k is an IRI (nothing is read from the store)
+    let mut ds6 = Dataset::default();
+    ds6.default.insert((k.into(), "x:p".into(), "x:a".into()));
+    ds6.named.entry(k.into()).or_default();
+    let rw = Update::Modify {
+        delete: Some(vec![q(v("s"), i("x:p"), v("o"))]),
+        insert: Some(vec![q(v("s"), i("x:q"), v("o"))]),
+        pattern: Group(vec![Elem::Triples(vec![tp(v("s"), i("x:p"), v("o"))])]),
+    };
+    match apply(&ds6, &rw, 1) {
+        Ok((d2, eff)) => {
+            let want: BTreeSet<_> = [(k.to_string(), "x:q".to_string(), "x:a".to_string())].into_iter().collect();
+            if d2.default != want || eff != (Effect { inserted: 1, deleted: 1 }) {
+                errs.push(format!("update selftest relative IRI rewrite: {:?} {:?}", d2.default, eff));
+            }
+        }
+        Err(e) => errs.push(format!("update selftest relative IRI rewrite rejected: {}", e)),
+    }
+    match relative_iri_bindings(&ds6, &rw) {
+        Some(r) => {
+            let want = vec![
+                RelBinding { insert: false, pos: Pos::Subject, iri: k.to_string(), present: true, names_graph: true, last_occurrence_deleted: true },
+                RelBinding { insert: true, pos: Pos::Subject, iri: k.to_string(), present: true, names_graph: true, last_occurrence_deleted: true },
+            ];
+            if r.bindings != want || !r.inserts_only_via_unseen.is_empty() {
+                errs.push(format!("update selftest relative IRI report (rewrite): {:?}", r));
+            }
+        }
+        None => errs.push("update selftest relative IRI report (rewrite): rejected".into()),
     }
     errs
 }
